@@ -31,6 +31,15 @@ type Rec struct {
 	classes []string
 	viol    string
 	skip    string
+	extra   uint64 // additional evaluations carried out inside the case (e.g. enumerated fault points)
+	extraNT uint64 // how many of those were non-trivial (distinct within the case by construction)
+}
+
+// AddEvals records evaluations enumerated inside one case, nt of which are
+// non-trivial; they count as distinct when the case itself is distinct.
+func (r *Rec) AddEvals(n, nt uint64) {
+	r.extra += n
+	r.extraNT += nt
 }
 
 // NT marks the case as non-trivial by the property's stated rule.
@@ -70,6 +79,8 @@ func (r *Rec) Skip(reason string) {
 // Merge copies the outcome of o into r.
 func (r *Rec) Merge(o *Rec) {
 	r.nt = r.nt || o.nt
+	r.extra += o.extra
+	r.extraNT += o.extraNT
 	r.classes = append(r.classes, o.classes...)
 	if r.viol == "" {
 		r.viol = o.viol
@@ -168,10 +179,11 @@ type subStats struct {
 	Exhaustive bool              `json:"exhaustive"`
 	WallS      float64           `json:"wall_s"`
 	fps        map[uint64]struct{}
+	caseSeen   map[uint64]struct{}
 }
 
 func newSubStats() *subStats {
-	return &subStats{Classes: map[string]uint64{}, Skips: map[string]uint64{}, fps: map[uint64]struct{}{}}
+	return &subStats{Classes: map[string]uint64{}, Skips: map[string]uint64{}, fps: map[uint64]struct{}{}, caseSeen: map[uint64]struct{}{}}
 }
 
 const maxSamples = 3
@@ -203,9 +215,21 @@ func (s *subStats) sample(v any, nt bool) {
 
 func (s *subStats) record(v any, rec *Rec) {
 	s.Evals++
+	s.Evals += rec.extra
 	if rec.skip != "" {
 		s.Skips[rec.skip]++
 		return
+	}
+	if rec.extraNT > 0 {
+		if b, err := json.Marshal(v); err == nil {
+			f := fnv.New64a()
+			f.Write(b)
+			k := f.Sum64() ^ 0x5bd1e995
+			if _, seen := s.caseSeen[k]; !seen {
+				s.caseSeen[k] = struct{}{}
+				s.BulkNT += rec.extraNT
+			}
+		}
 	}
 	for _, c := range rec.classes {
 		s.Classes[c]++
